@@ -3,8 +3,8 @@
 # usage: tools/validate_seed.sh C08 a
 set -u
 P=$1; V=$2
-SRC=/tmp/wt/out/$P/$V
-ID=$P-$V
+SRCROOT=${3:-/tmp/wt/out}; NEWV=${4:-$V}; SRC=$SRCROOT/$P/$V
+ID=$P-$NEWV
 WT=/tmp/val/$ID
 mkdir -p /tmp/val
 git -C /repo worktree add -q --detach $WT HEAD || exit 3
